@@ -188,7 +188,7 @@ NoSz == [L |-> 0, nl |-> FALSE, M |-> 0, cut |-> FALSE, mark |-> FALSE, undec |-
 -----------------------------------------------------------------------------
 (* ============================ PART rlist ================================ *)
 
-\* thresholds are coded 0..4 = -1 (unlimited), 0 (block), 1, 2, 3  (TLC cfg files have no negative literals; here none are needed)
+\* thresholds: -1 (unlimited), 0 (block), 1, 2, 3
 RThr == {-1, 0, 1, 2, 3}
 RRule == [m : BOOLEAN, thr : RThr]
 RLists == UNION {[1..n -> RRule] : n \in 1..3}
